@@ -64,6 +64,7 @@ class WriterExtractor:
         self.folder = Folder(model)
         self.r = Resolver(model)
         self.default_tags: Dict[str, TagConst] = {}
+        self.nonconst: List[tuple] = []
         self._load_defaults()
 
     def _load_defaults(self) -> None:
@@ -200,6 +201,19 @@ class WriterExtractor:
         try:
             v = self.folder.fold(e, fi.module, {k: v[1] for k, v in ()}, cls_q)
         except Unfoldable as ex:
+            # ASN1Tag(<class>, <number>, <something computed at run time>): the identifier octet depends on the value being
+            # written - recorded as a finding of its own (C01 W15 / C03 B11), extraction goes on with the foldable parts
+            if isinstance(e, ast.Call) and self.m.resolve_name(fi.module, norm(e.func)) == f"{ASN1}.ASN1Tag":
+                parts = dict(zip(["tag_class", "tag_number", "is_constructed"], e.args))
+                parts.update({k.arg: k.value for k in e.keywords if k.arg})
+                try:
+                    tc = self.folder.fold(parts["tag_class"], fi.module, None, cls_q)
+                    tn = self.folder.fold(parts["tag_number"], fi.module, None, cls_q)
+                except (Unfoldable, KeyError):
+                    tc = tn = None
+                if tc is not None and tn is not None:
+                    self.nonconst.append((fi.qualname, getattr(e, "lineno", 0), norm(e), str(ex), cls_q))
+                    return TagConst(tc, tn, False)
             raise AnalysisError(f"{fi.qualname}: tag `{norm(e)}` does not fold to a constant ({ex})")
         if not isinstance(v, TagConst):
             raise AnalysisError(f"{fi.qualname}: tag `{norm(e)}` folds to {v!r}")
